@@ -26,7 +26,7 @@ ASSUMPTIONS = [
 
 
 def run(ctx) -> None:
-    ctx.rule("C07.eval", "T5: _eval_gpr is the standard and/or homomorphism", floor=8)
+    ctx.rule("C07.eval", "T5: _eval_gpr is the standard and/or homomorphism", floor=9)
     ctx.rule("C07.guard", "T5: Gene.knock_out zeroes a reaction iff reaction.functional is false, for every reaction of the gene; Reaction.functional consults all genes", floor=5)
     ctx.rule("C07.route", "T4: knock-outs use the reversible synced setters; every listed gene is knocked out through Gene.knock_out; Reaction.knock_out touches its own bounds only", floor=3)
     check_eval(ctx)
@@ -277,6 +277,47 @@ def check_eval(ctx) -> None:
         ctx.bad("C07.eval", ev, ev.node, bad_s)
     else:
         ctx.ok("C07.eval", ev, "string argument", "a string argument knocks out exactly the gene of that identifier (evaluated, identifiers containing each other)")
+    # the documented container types: a list / tuple / frozenset of identifiers and a DictList of gene objects
+    # (membership in a DictList goes by identifier, iterating it yields the objects)
+    class _G:
+        def __init__(self, gid):
+            self.id = gid
+
+    class _KO(list):
+        def __contains__(self, x):
+            gid = x.id if hasattr(x, "id") else x
+            return any(g.id == gid for g in self)
+
+    def _isinstance_ko(it_, ev_, c, a, k):
+        if isinstance(a[0], _KO):
+            names = [norm(y).split(".")[-1] for y in (c.args[1].elts if isinstance(c.args[1], ast.Tuple) else [c.args[1]])]
+            return any(n in ("list", "DictList") for n in names)
+        if isinstance(a[0], _G):
+            return False
+        return _isinstance(it_, ev_, c, a, k)
+
+    bad_c = None
+    for t in (a, AND(a, b), OR(a, b), AND(a, OR(b, c))):
+        for ko in (set(), {"a"}, {"b", "c"}, {"a", "zz"}):
+            for kind, value in (("list", sorted(ko)), ("tuple", tuple(sorted(ko))), ("frozenset", frozenset(ko)), ("DictList of genes", _KO(_G(x) for x in sorted(ko)))):
+                it = Interp(prog, (_Node, _G, _KO), [], {"isinstance": _isinstance_ko}, globals_={"str": str, "list": list, "set": set, "frozenset": frozenset, "tuple": tuple})
+                it.missing_attr_raises = True
+                g = GPRN(t)
+                g._it = it
+                n_cases += 1
+                try:
+                    got = ("value", g.eval(value))
+                except EvalRaise as exc:
+                    got = ("raise", exc.exc_type)
+                except Unknown as exc:
+                    raise AnalysisError(f"C07.eval: GPR.eval cannot be evaluated with knock-outs given as a {kind}: {exc}")
+                want = truth(t, ko)
+                if got != ("value", want) and bad_c is None:
+                    bad_c = f"rule `{show(t)}` with knock-outs {sorted(ko)} given as a {kind} {'raises ' + got[1] if got[0] == 'raise' else 'gives ' + repr(got[1])}, the truth table gives {want}"
+    if bad_c:
+        ctx.bad("C07.eval", ev, ev.node, bad_c)
+    else:
+        ctx.ok("C07.eval", ev, "container argument", "knock-outs given as a list, tuple, frozenset of identifiers or a DictList of gene objects act like the set of their identifiers (evaluated)")
     # anything that is no and/or rule raises instead of yielding a truth value
     for label, t in (("an operator other than and/or", BoolOpN(BitXorN(), [a, b])), ("a node that is no rule node", UnaryN(a)), ("a node that is no rule node", AND(a, UnaryN(b)))):
         got = run(t, set(), False)
